@@ -59,7 +59,7 @@ def main():
         if mine:
             jobs.append(("seed", n, os.path.dirname(m) + "/patch.diff", mine, meta["reported_by"]))
     bad = 0
-    with ThreadPoolExecutor(max_workers=8) as ex:
+    with ThreadPoolExecutor(max_workers=int(os.environ.get("JOBS","8"))) as ex:
         for res in ex.map(lambda j: run(*j), jobs):
             for r in res:
                 bad += 1
